@@ -22,10 +22,10 @@ structure S3St where
 
 /-- one turn of the `for (key, value) in keys_to_update` loop of `storage_data_on_cloud` -/
 def s3SnapKey (s : S3St) (k : Bytes) (e : Entry) : S3St :=
-  { db := s.db.setValueVersion k e.value e.version .ok s.vaddr s.kaddr s.clock,
+  { db := if e.state = .deleted then s.db else s.db.setValueVersion k e.value e.version .ok s.vaddr s.kaddr s.clock,
     values := s.values ++ le64 e.value.length ++ e.value ++ le32i (statusCode e.state),
     keys := s.keys ++ encKey k e.version s.vaddr,
-    vaddr := s.vaddr + (8 + e.value.length + 4), kaddr := s.kaddr + keyRecSize k.length, clock := s.clock + 1 }
+    vaddr := s.vaddr + (8 + e.value.length + 4), kaddr := s.kaddr + keyRecSize k.length, clock := if e.state = .deleted then s.clock else s.clock + 1 }
 
 def s3Prefix : Bytes := b!"nun-db-base/"
 
